@@ -45,7 +45,10 @@ CLAIMED = {
         text="Pipeline.tla carries per-step executor placement, inherited executors and a rejection point per executor; TLC "
              "enumerates programs x executor choices x rejection points with expected submissions, Call/Drop counts and "
              "placement and checks Called-xor-Dropped on the interpreter; every program is executed on the real API with "
-             "instrumented executors.",
+             "instrumented executors. ExecSeq.tla enumerates sequential submission histories of reused (intrusive) job "
+             "objects over ManualExecutor, two Strands over it, a Strand over a rejecting executor and the two Inline "
+             "executors with the prescribed Call / Drop counts and order; every history runs on the real executors. "
+             "Strand.tla / ThreadPool.tla traces cover Stop racing with Submit.",
         note=SEQ_NOTE, design="7/C05", technique="TLA+ reference interpreter; TLC-enumerated programs replayed on the code"),
     "C06": dict(
         text="SharedCore.tla models the lock-free callback stack, the reference counter thresholds (copy / last callback "
